@@ -104,6 +104,7 @@ theorem pick_rel (h : ObsR p t0 ra rb a b) (o : PickOutcome) : RelE (RS p t0 ra 
     | ok ps =>
       simp only [RelE, RS, and_true]
       exact { h2 with locked := by simp only []; rw [h2.locked], spawned := by simp only []; rw [h2.spawned],
+                      lockedOrd := by simp only []; rw [h2.lockedOrd, h2.spawned],
                       mainDraws := by simp only []; rw [h2.mainDraws] }
 
 
@@ -191,17 +192,24 @@ theorem perEns_rel (status : Status) : ∀ (l : List (Picked × List Rat)) (tn :
     intro tn a b h
     obtain ⟨pk, w⟩ := hd
     simp only [treatOutput.perEns]
-    have h1 : ObsR p t0 ra rb { a with locked := popLocked pk.pn a.locked.length 0 a.locked }
-        { b with locked := popLocked pk.pn b.locked.length 0 b.locked } :=
-      { h with locked := by simp only []; rw [h.locked] }
+    have h1 : ObsR p t0 ra rb
+        { a with locked := popLocked pk.pn a.locked.length 0 a.locked,
+                 lockedOrd := popLockedOrd pk.pn a.locked.length 0 a.locked a.lockedOrd }
+        { b with locked := popLocked pk.pn b.locked.length 0 b.locked,
+                 lockedOrd := popLockedOrd pk.pn b.locked.length 0 b.locked b.lockedOrd } :=
+      { h with locked := by simp only []; rw [h.locked],
+               lockedOrd := by simp only []; rw [h.locked, h.lockedOrd] }
     split
     · -- accepted
       have h2 : ObsR p t0 ra rb
           { a with locked := popLocked pk.pn a.locked.length 0 a.locked,
+                   lockedOrd := popLockedOrd pk.pn a.locked.length 0 a.locked a.lockedOrd,
                    frac := a.frac ++ [(tn, List.replicate a.n 0)], wts := a.wts ++ [(tn, w)] }
           { b with locked := popLocked pk.pn b.locked.length 0 b.locked,
+                   lockedOrd := popLockedOrd pk.pn b.locked.length 0 b.locked b.lockedOrd,
                    frac := b.frac ++ [(tn, List.replicate b.n 0)], wts := b.wts ++ [(tn, w)] } :=
         { h with locked := by simp only []; rw [h.locked],
+                 lockedOrd := by simp only []; rw [h.locked, h.lockedOrd],
                  frac := by simp only []; rw [h.n]; exact h.frac.append _ _, wts := h.wts.append _ _ }
       have h3 := addTraj_rel h2 pk.ens tn w
       cases ha : addTraj _ pk.ens tn w with
